@@ -13,7 +13,7 @@ from .reference import Reference, declared_edges, reachable
 from .sim import BarrierScheduler, FifoScheduler, ScriptedScheduler, make_scheduler
 
 # construct classes currently claimed (extended as defects are repaired); see DESIGN 4.2 / 7
-CLASSES_ALL = ['plain', 'rec', 'rec_nested', 'switch', 'switch_unk', 'switch_shared', 'oneof', 'oneof_nested', 'mix_main', 'switch_oneof']
+CLASSES_ALL = ['plain', 'rec', 'rec_nested', 'switch', 'switch_unk', 'switch_shared', 'oneof', 'oneof_nested', 'mix_main', 'switch_oneof', 'hub']
 
 
 def h64(*parts) -> int:
@@ -325,6 +325,11 @@ class C04(Prop):
     k_quick = 3
     k_thorough = 6
 
+    def decorate(self, case, rng):
+        # a suspending on_node_start widens the check-then-mark window of the duplicate-request guard
+        if rng.random() < 0.35:
+            case['em'] = [{'slow': True}]
+
     def nontrivial(self, case, rec, refs):
         cons = {}
         for a, b in declared_edges(case['spec']):
@@ -415,7 +420,7 @@ class C06(Prop):
 
 class C09(Prop):
     id = 'C09'
-    classes = ['switch', 'switch_unk', 'switch_shared', 'mix_main', 'switch_oneof']
+    classes = ['switch', 'switch_unk', 'switch_shared', 'mix_main', 'switch_oneof', 'hub']
     rule = ('programs with named/unnamed, nested, shared switches; labels derived from the input incl. labels '
             'without a case; oracle: executed bodies subset of the reference demanded set, consumer kwargs = '
             'selected case value, unknown label => error result; non-trivial = program has a switch with >= 2 '
@@ -427,7 +432,7 @@ class C09(Prop):
 
 class C10(Prop):
     id = 'C10'
-    classes = ['oneof', 'oneof_nested', 'mix_main', 'switch_oneof']
+    classes = ['oneof', 'oneof_nested', 'mix_main', 'switch_oneof', 'hub']
     rule = ('programs with sibling / nested one-ofs, failures at any depth of candidate sub-pipelines, None/falsy '
             'candidates; oracle: invocation multiset vs reference (laziness, containment, winner value), candidate '
             'start order, OneOfDoesNotHaveResultError on exhaustion; non-trivial = some candidate failed before '
